@@ -26,4 +26,4 @@ for D in seeded/${1:-}*/; do
   done
   git -C /repo worktree remove --force $WT
 done
-find /verif/replays -name "*.json*" -delete 2>/dev/null
+git -C /verif clean -fq replays 2>/dev/null
